@@ -609,6 +609,26 @@ def run_document(doc):
                   dict(meta_doc, what='restree'), len(paint_draws) > 1,
                   ['doc:restree', f'doc:restree-scopes{min(len(paint_draws) - len(img_draws) + 1, 4)}'] +
                   (['doc:restree-shared-across-scopes'] if _shared_across_scopes(paint_draws) else [])))
+    # ---- which uses share one RasterImage.id: same source and same computed image-orientation, nothing else
+    orientation_code = {None: 0, 'none': 1, '90deg': 2, '180deg': 3, 'flip': 4, '270deg flip': 5}
+    uses, sources = [], {}
+    for spec in doc['imgs']:
+        if spec.get('kind') == 'svg':
+            continue
+        source = sources.setdefault((spec['pw'], spec['ph'], spec['color']), len(sources))
+        code = 0 if spec.get('kind') == 'content' else orientation_code[spec.get('orientation')]
+        uses.append(([source, code, 0, 0, 0], by_id[spec['id']].replacement))
+    for spec in doc['bgs']:
+        source = sources.setdefault((spec['pw'], spec['ph'], spec['color']), len(sources))
+        uses.append(([source, 0, 0, 0, 0], by_id[spec['id']].background.layers[0].image))
+    images = [image for _, image in uses]
+    id_classes = [next(j for j, other in enumerate(images) if other.id == image.id) for image in images]
+    object_classes = [next(j for j, other in enumerate(images) if other is image) for image in images]
+    cases.append((sx.line('imgids', [key for key, _ in uses]),
+                  ok('(' + ' '.join(map(str, id_classes)) + ') (' + ' '.join(map(str, object_classes)) + ')'),
+                  dict(meta_doc, what='imgids'), len(set(id_classes)) < len(id_classes),
+                  ['doc:imgids'] + (['doc:imgids-same-source-other-orientation'] if any(
+                      a[0][0] == b[0][0] and a[0][1] != b[0][1] for a in uses for b in uses) else [])))
     undefined = pdf_undefined_uses(objects)
     assert not undefined, f'content streams paint XObjects their own /Resources do not define: {undefined}'
     return cases
